@@ -68,6 +68,11 @@ def universe(depth2=True, big=False):
     add({"k": "gen", "origin": dct, "oname": "dict", "args": [cls[9], cls[2]]})
     add({"k": "gen", "origin": dct, "oname": "dict", "args": [cls[9], cls[3]]})
     add({"k": "gen", "origin": dct, "oname": "dict", "args": [cls[9]]})  # same origin, other arity
+    # another origin above list: Sequence[...] against list[...] compares origins and arguments
+    seq = add({"k": "cls", "c": 0, "builtin": "Sequence"})
+    add({"k": "gen", "origin": seq, "oname": "Sequence", "args": [cls[2]]})
+    add({"k": "gen", "origin": seq, "oname": "Sequence", "args": [cls[3]]})
+    add({"k": "gen", "origin": lst, "oname": "list", "args": [cls[1]]})
     add({"k": "gen", "origin": lst, "oname": "list", "args": [cls[10]]})
     add({"k": "gen", "origin": lst, "oname": "list", "args": [cls[11]]})
     add({"k": "typeof", "arg": gl[2]})
@@ -146,7 +151,12 @@ class Realizer:
         t = T[i - 1]
         k = t["k"]
         if k == "cls":
-            r = self.classes[t["c"]] if t["c"] else {"tuple": tuple, "list": list, "dict": dict}[t["builtin"]]
+            if t["c"]:
+                r = self.classes[t["c"]]
+            else:
+                import collections.abc
+
+                r = {"tuple": tuple, "list": list, "dict": dict, "Sequence": collections.abc.Sequence}[t["builtin"]]
         elif k == "exactly":
             r = Exactly[self.classes[t["c"]]]
         elif k == "strict":
